@@ -41,3 +41,112 @@ proof_entropy!(c16_new_f32_len3_robust, crate::h_c16::c16_new_f32_len3_robust, 3
 proof_entropy!(c16_new_f64_len3_robust, crate::h_c16::c16_new_f64_len3_robust, 34);
 proof_entropy_ln!(c16_logp_f32, crate::h_c16::c16_logp_f32, 34);
 proof_entropy_ln!(c16_logp_f64, crate::h_c16::c16_logp_f64, 34);
+
+// C01 / C14(MH): from_seed 32-byte loop (33), words_to_seed (9)
+proof_entropy_ln!(c01_u8_f32, crate::h_c01::c01_u8_f32, 34);
+proof_entropy_ln!(c01_u8_f32_robust, crate::h_c01::c01_u8_f32_robust, 34);
+proof_entropy_ln!(c01_i32_f32, crate::h_c01::c01_i32_f32, 34);
+proof_entropy_ln!(c01_u8_f64, crate::h_c01::c01_u8_f64, 34);
+proof_entropy_ln!(c01_u8_f64_robust, crate::h_c01::c01_u8_f64_robust, 34);
+proof_entropy_ln!(c01_f64_f64_len2, crate::h_c01::c01_f64_f64_len2, 34);
+proof_entropy_ln!(c01_f32_f32_len2, crate::h_c01::c01_f32_f32_len2, 34);
+proof_entropy_ln!(c14_mh_u8_f32, crate::h_c01::c14_mh_u8_f32, 34);
+proof_entropy_ln!(c14_mh_f64_f64_len2, crate::h_c01::c14_mh_f64_f64_len2, 34);
+
+macro_rules! proof_plain {
+    ($name:ident, $body:path, $unwind:expr) => {
+        #[kani::proof]
+        #[kani::unwind($unwind)]
+        fn $name() {
+            let mut s = Src::new();
+            $body(&mut s);
+        }
+    };
+}
+macro_rules! proof_entropy_seed {
+    ($name:ident, $body:path, $unwind:expr) => {
+        #[kani::proof]
+        #[kani::unwind($unwind)]
+        #[kani::stub(getrandom::fill, getrandom_fill_stub)]
+        #[kani::stub(<rand::rngs::SmallRng as rand::SeedableRng>::seed_from_u64, seed_from_u64_stub)]
+        fn $name() {
+            let mut s = Src::new();
+            $body(&mut s);
+        }
+    };
+}
+
+// C05
+proof_plain!(c05_u8_d4, crate::h_c05::c05_u8_d4, 8);
+proof_plain!(c05_f64_d3, crate::h_c05::c05_f64_d3, 8);
+proof_plain!(c05_u8_d6, crate::h_c05::c05_u8_d6, 8);
+proof_plain!(c05_i32_d4, crate::h_c05::c05_i32_d4, 8);
+
+// C07 / C08 seed plumbing
+proof_entropy_seed!(c07_mh_seeded_iso_n2, crate::h_c07::c07_mh_seeded_iso_n2, 34);
+proof_entropy_seed!(c07_mh_seeded_iso_n3, crate::h_c07::c07_mh_seeded_iso_n3, 34);
+proof_entropy_seed!(c07_mh_seeded_iso_n2_top, crate::h_c07::c07_mh_seeded_iso_n2_top, 34);
+proof_entropy_seed!(c08_mh_seeded_user_n2, crate::h_c07::c08_mh_seeded_user_n2, 34);
+proof_entropy_seed!(c08_mh_seeded_user_n3, crate::h_c07::c08_mh_seeded_user_n3, 34);
+proof_entropy_seed!(c08_mh_unseeded_iso_n2, crate::h_c07::c08_mh_unseeded_iso_n2, 34);
+proof_entropy_seed!(c08_mh_unseeded_iso_n3, crate::h_c07::c08_mh_unseeded_iso_n3, 34);
+proof_entropy_seed!(c07_gibbs_seeded_n3, crate::h_c07::c07_gibbs_seeded_n3, 34);
+proof_entropy_seed!(c07_gibbs_seeded_n3_top, crate::h_c07::c07_gibbs_seeded_n3_top, 34);
+
+macro_rules! proof_init {
+    ($name:ident, $body:path, $unwind:expr) => {
+        #[kani::proof]
+        #[kani::unwind($unwind)]
+        #[kani::stub(getrandom::fill, getrandom_fill_stub)]
+        #[kani::stub(<rand::rngs::SmallRng as rand::SeedableRng>::seed_from_u64, seed_from_u64_stub)]
+        #[kani::stub(rand_distr::utils::ziggurat, ziggurat_stub)]
+        fn $name() {
+            let mut s = Src::new();
+            $body(&mut s);
+        }
+    };
+}
+
+// C09
+proof_plain!(c09_runchain_d2_c2_d1_m1, crate::h_c09::c09_runchain_d2_c2_d1_m1, 6);
+proof_plain!(c09_runchain_d1_c0_d2_m2, crate::h_c09::c09_runchain_d1_c0_d2_m2, 6);
+proof_plain!(c09_runchain_d2_c1_d0_m1, crate::h_c09::c09_runchain_d2_c1_d0_m1, 6);
+proof_plain!(c09_runchain_d1_c3_d2_m0, crate::h_c09::c09_runchain_d1_c3_d2_m0, 8);
+proof_plain!(c09_runchain_d2_c3_d3_m2, crate::h_c09::c09_runchain_d2_c3_d3_m2, 8);
+
+// C13
+proof_plain!(c13_tracker_f32_s3, crate::h_c13::c13_tracker_f32_s3, 6);
+proof_plain!(c13_tracker_f32_s3_robust, crate::h_c13::c13_tracker_f32_s3_robust, 6);
+proof_plain!(c13_tracker_f64_s2, crate::h_c13::c13_tracker_f64_s2, 6);
+proof_plain!(c13_tracker_f64_s2_robust, crate::h_c13::c13_tracker_f64_s2_robust, 6);
+proof_plain!(c13_tracker_i32_s2, crate::h_c13::c13_tracker_i32_s2, 6);
+proof_plain!(c13_multi_f32, crate::h_c13::c13_multi_f32, 6);
+proof_plain!(c13_multi_f32_robust, crate::h_c13::c13_multi_f32_robust, 6);
+
+// C18
+proof_init!(c18_seeded_f64_1_2x2, crate::h_c18::c18_seeded_f64_1_2x2, 34);
+proof_init!(c18_seeded_f32_1_2x2, crate::h_c18::c18_seeded_f32_1_2x2, 34);
+proof_init!(c18_seeded_f64_2_3x1, crate::h_c18::c18_seeded_f64_2_3x1, 34);
+proof_init!(c18_seeded_f64_2_3x3, crate::h_c18::c18_seeded_f64_2_3x3, 34);
+proof_init!(c18_seeded_f32_0_1x2, crate::h_c18::c18_seeded_f32_0_1x2, 34);
+proof_init!(c18_det_f64_2x2, crate::h_c18::c18_det_f64_2x2, 34);
+proof_init!(c18_det_f32_2x2, crate::h_c18::c18_det_f32_2x2, 34);
+proof_init!(c18_unseeded_f64_2x2, crate::h_c18::c18_unseeded_f64_2x2, 34);
+proof_init!(c18_unseeded_f32_3x1, crate::h_c18::c18_unseeded_f32_3x1, 34);
+
+// C11 summary
+macro_rules! proof_sqrt {
+    ($name:ident, $body:path, $unwind:expr) => {
+        #[kani::proof]
+        #[kani::unwind($unwind)]
+        #[kani::stub(f32::sqrt, sqrt_stub_f32)]
+        #[kani::stub(f32::mul_add, mul_add_stub_f32)]
+        fn $name() {
+            let mut s = Src::new();
+            $body(&mut s);
+        }
+    };
+}
+proof_sqrt!(c11_basic_fin_n3, crate::h_c11::c11_basic_fin_n3, 8);
+proof_sqrt!(c11_basic_fin_n4, crate::h_c11::c11_basic_fin_n4, 8);
+proof_sqrt!(c11_basic_any_n3, crate::h_c11::c11_basic_any_n3, 8);
